@@ -12,7 +12,8 @@ It implements exactly what koreo and kr8s' APIObject need from an `api`:
   * `latency(i, method, key)` (seconds, virtual) is slept before the call takes effect;
   * `decorate(obj)` is applied to whatever the server stores (server-side bookkeeping);
   * `lookups` records every `lookup_kind` discovery call; with `log_lookups = True` they also appear
-    in `log` as method "LOOKUP" entries (without a call index, so fault indices do not shift).
+    in `log` as method "LOOKUP" entries (without a call index, so fault indices do not shift);
+    kinds listed in `unknown_kinds` make the discovery raise ValueError (as kr8s does).
 """
 from __future__ import annotations
 
@@ -68,6 +69,7 @@ class Cluster:
         self.tag = None          # harness-set label (e.g. the step being run) copied into log entries
         self.lookups: list[str] = []   # every kind-to-plural discovery (`lookup_kind`) that reached the API
         self.log_lookups = False       # opt-in: also put them into `log` as method "LOOKUP" (no call index)
+        self.unknown_kinds: set[str] = set()   # opt-in: base kind names the discovery does not know (ValueError)
 
     # ---- what kr8s / koreo use
     @property
@@ -80,6 +82,8 @@ class Cluster:
         if self.log_lookups:   # a discovery round-trip is an API call too; it does not consume a fault index
             self.log.append({"i": None, "method": "LOOKUP", "version": None, "plural": None, "namespace_arg": None,
                              "name": kind, "body": None, "fault": None, "tag": self.tag, "applied": True})
+        if base in self.unknown_kinds:     # what kr8s raises for a kind the API server does not serve
+            raise ValueError(f"Kind {kind} not found.")
         return (None, base.lower() + "s", True)
 
     async_lookup_kind = lookup_kind
